@@ -196,6 +196,20 @@ def print_assumptions(prop_file):
     return True, res, out
 
 
+def coqchk(prop_file, timeout=2400):
+    """Independent re-check (coqchk) of the compiled property file and everything it depends on.
+    Returns (ok, summary dict, raw tail)."""
+    mod = "PF." + os.path.splitext(prop_file)[0].replace("theories/", "", 1).replace("/", ".")
+    rc, out = sh(["coqchk", "-silent", "-o", "-R", os.path.join(COQ, "theories"), "PF",
+                  "-R", os.path.join(COQ, "gen"), "PFGen", mod], cwd=COQ, timeout=timeout)
+    summ = {}
+    m = re.search(r"CONTEXT SUMMARY\s*=+\s*(.*)", out, re.S)
+    if m:
+        for key, val in re.findall(r"\* ([^:\n]+):\s*(.*?)(?=\n\s*\n|\Z)", m.group(1), re.S):
+            summ[key.strip()] = re.sub(r"\s+", " ", val.strip())
+    return rc == 0, summ, out[-2500:]
+
+
 def count_qed(files):
     n = 0
     for f in files:
@@ -410,6 +424,13 @@ def standard_check(cfg, argv):
         if not pa_ok:
             proofs_ok, log_p = False, pa_raw
 
+    chk = None
+    if proofs_ok and tier == "thorough" and not replay and not os.environ.get("VERIF_NO_COQCHK"):
+        c_ok, c_sum, c_raw = coqchk(cfg["prop_file"])
+        chk = {"ok": c_ok, "summary": c_sum}
+        if not c_ok:
+            proofs_ok, log_p = False, "coqchk rejected the compiled development:\n" + c_raw
+
     hb_ok, hbin, hlog = harness_build(cfg["harness"])
     outdir = os.path.join(BUILD, "run", prop + "-" + tier + ("-replay" if replay else ""))
     shutil.rmtree(outdir, ignore_errors=True)
@@ -521,6 +542,10 @@ def standard_check(cfg, argv):
         "model_impl_disagreements": len(bad_corr), "property_failures_on_impl": len(prop_fail_ids),
         "extra": meta.get("extra", {}),
     })
+    if chk is not None:
+        rep.cov["coqchk"] = chk
+        rep.cov["trusted_base"].append("coqchk -silent -o (independent checker) on %s: %s; axioms: %s" % (
+            cfg["prop_file"], "accepted" if chk["ok"] else "REJECTED", chk["summary"].get("Axioms", "?")))
     return rep.finish()
 
 
